@@ -314,6 +314,8 @@ func c17Requeuer(r *Run) {
 			dest.callsOf[d] = append(dest.callsOf[d], c)
 		}
 	}
+	ctx, cancel := context.WithCancel(context.Background())
+	defer cancel()
 	rq, err := requeuer.NewRequeuer(requeuer.Config{
 		Subscriber: src, SubscribeTopic: "poison", Publisher: dest.pub, Delay: delay,
 		GeneratePublishTopic: func(p requeuer.GeneratePublishTopicParams) (string, error) {
@@ -324,7 +326,6 @@ func c17Requeuer(r *Run) {
 		r.HarnessErr = err.Error()
 		return
 	}
-	ctx, cancel := context.WithCancel(context.Background())
 	r.Sim.AtEnd(func() {
 		for _, d := range src.Deliveries {
 			it := items[d.Msg.UUID]
